@@ -301,6 +301,8 @@ func c12Diff(a, b map[string]string) string {
 	return strings.Join(out, "; ")
 }
 
+var c12OuterTmp string
+
 func c12NewWorld() (*c12World, error) {
 	T, err := os.MkdirTemp("", "verif-c12-")
 	if err != nil {
@@ -317,6 +319,7 @@ func c12NewWorld() (*c12World, error) {
 	}
 	os.Setenv(c12EnvKey, c12RealEnv)
 	os.Unsetenv(c12EnvNew)
+	c12OuterTmp = os.Getenv("TMPDIR")
 	os.Setenv("TMPDIR", filepath.Join(T, "dir", "sub")) // a real MkdirTemp("") would land inside the watched tree
 	w.oldOut, w.oldErr, w.oldIn = os.Stdout, os.Stderr, os.Stdin
 	w.outF, _ = os.Create(filepath.Join(T, "real-stdout"))
@@ -347,7 +350,11 @@ func (w *c12World) close() {
 	w.inF.Close()
 	os.Chdir(w.oldWD)
 	os.Unsetenv(c12EnvKey)
-	os.Unsetenv("TMPDIR")
+	if c12OuterTmp != "" {
+		os.Setenv("TMPDIR", c12OuterTmp) // the driver's scratch directory (everything else is read-only)
+	} else {
+		os.Unsetenv("TMPDIR")
+	}
 	os.RemoveAll(w.T)
 }
 
